@@ -27,6 +27,9 @@ type PkgSpec struct {
 	Raw  []byte // spec file bytes (default: Doc.JSON())
 	Cfg  inproc.Config
 	Meta map[string]any
+	// Embed, when non-nil, is the spec-file content handed to goag as raw bytes while
+	// Raw/Doc is the document it parses (C13 served half).
+	Embed []byte
 }
 
 // collect draws n specs with rapid in collect mode: the property function records
@@ -73,6 +76,7 @@ func buildDriver(e *Env, specs []PkgSpec, race bool) (string, string, []PkgSpec,
 		Raw  string         `json:"raw"`
 		Cfg  inproc.Config  `json:"cfg"`
 		Meta map[string]any `json:"meta"`
+		Embed *string       `json:"embed,omitempty"`
 	}
 	nw := e.NShards
 	if nw > len(specs) {
@@ -92,7 +96,12 @@ func buildDriver(e *Env, specs []PkgSpec, race bool) (string, string, []PkgSpec,
 			if raw == nil {
 				raw = s.Doc.JSON()
 			}
-			batch = append(batch, prepIn{Name: s.Name, Raw: string(raw), Cfg: s.Cfg, Meta: s.Meta})
+			pin := prepIn{Name: s.Name, Raw: string(raw), Cfg: s.Cfg, Meta: s.Meta}
+			if s.Embed != nil {
+				em := string(s.Embed)
+				pin.Embed = &em
+			}
+			batch = append(batch, pin)
 			idx = append(idx, i)
 		}
 		inFile := filepath.Join(root, fmt.Sprintf("prep-in-%d.json", w))
@@ -256,6 +265,7 @@ func cmdPrep(root, inFile, outFile string) int {
 		Raw  string         `json:"raw"`
 		Cfg  inproc.Config  `json:"cfg"`
 		Meta map[string]any `json:"meta"`
+		Embed *string       `json:"embed"`
 	}
 	bs, err := os.ReadFile(inFile)
 	if err != nil || json.Unmarshal(bs, &batch) != nil {
@@ -276,7 +286,13 @@ func cmdPrep(root, inFile, outFile string) int {
 		wd := filepath.Join(root, "work", s.Name)
 		os.MkdirAll(out, 0o755)
 		os.MkdirAll(wd, 0o755)
-		oc := inproc.Generate(raw, cfg, wd, out)
+		var oc inproc.Outcome
+		if s.Embed != nil {
+			oc = inproc.GenerateRaw(raw, []byte(*s.Embed), cfg, out)
+			os.WriteFile(filepath.Join(root, "specs", s.Name+".embed"), []byte(*s.Embed), 0o644)
+		} else {
+			oc = inproc.Generate(raw, cfg, wd, out)
+		}
 		if oc.Panic != "" || oc.Err != nil {
 			os.RemoveAll(out)
 			results = append(results, result2{false, "rejected: " + firstWords(fmtErr(oc.Err)+" "+oc.Panic, 12)})
